@@ -679,6 +679,12 @@ func ReplayMain(path, verifDir string) int {
 	st := NewStats()
 	c := newCtx(p, v.Seed, v.Tier, v.Index, st)
 	c.Verbose = os.Stdout
+	budget := 2 * p.caseBudget(v.Tier)
+	go func() {
+		time.Sleep(budget)
+		fmt.Printf("REPRODUCED property=%s: the case made no progress within %v (twice its budget); the last call printed above did not return\n", p.ID, budget)
+		os.Exit(1)
+	}()
 	c.RunCase(p.Run)
 	if c.Viol != nil {
 		fmt.Printf("REPRODUCED property=%s sig=%s\n  %s\n", p.ID, c.Viol.Sig, c.Viol.Message)
